@@ -27,6 +27,23 @@ _LIT = ir.Style()
 _LIT.param_style = 'literal'
 
 
+def is_equal_constant_merge(exc, q, tables):
+    """Known mechanism: two column-free, aggregate-free targets / grouping keys that fold to EQUAL constants are
+    reconciled with each other by the compiler, which then reports one of them as not covered by GROUP BY."""
+    if 'must be covered by GROUP-BY' not in str(exc):
+        return False
+    env = model.Env(tables)
+    consts = []
+    exprs = [t.expr for t in q.targets] + [k.value for k in (q.group_by or []) if k.kind == 'expr']
+    for e in exprs:
+        if not e.has_agg() and not any(n.kind == 'col' for n in e.walk()):
+            try:
+                consts.append(model.ev(e, {}, env))
+            except Exception:  # noqa: BLE001
+                pass
+    return any(a == b and a is not None for i, a in enumerate(consts) for b in consts[i + 1:]) or consts.count(None) >= 2
+
+
 def run_case(ctx, q, tables, route, label, mon):
     mt = tables[q.table]
     conn = engine.connection(tables.values())
@@ -58,6 +75,13 @@ def run_case(ctx, q, tables, route, label, mon):
     if eng_exc is not None or mod_exc is not None:
         if eng_exc is not None and mod_exc is not None and type(eng_exc) is type(mod_exc):
             ctx.count('excluded.definition_raises')
+            return
+        if isinstance(eng_exc, EXCLUDED_BOTH):
+            # arithmetic domain error on a row / key the (lazier) model never evaluated: outside the property, counted
+            ctx.count('excluded.engine_arithmetic_domain_error')
+            return
+        if eng_exc is not None and is_equal_constant_merge(eng_exc, q, tables):
+            ctx.violation('%s.group_by_equal_constants_merged' % ID.lower(), f'{type(eng_exc).__name__}: {eng_exc} on {text}', case)
             return
         if eng_exc is not None:
             kind = monitors.classify_exception(eng_exc)
